@@ -73,6 +73,14 @@ def resolve_member(expr):
     return eval(expr, {'operator': operator, '__builtins__': vars(builtins)})
 
 
+class VMatch:
+    """abstract re.Match object: groups are uninterpreted functions of (pattern, method, subject)"""
+    __slots__ = ('pattern', 'subject', 'method')
+
+    def __init__(self, pattern, subject, method):
+        self.pattern, self.subject, self.method = pattern, subject, method
+
+
 class ZS:
     def __init__(self):
         self.unions = {}     # name -> (datatype, api.Union)
